@@ -76,6 +76,17 @@ Theorem C04_slice_of_stack : forall (A : Type) pre post before (p : nat * list A
 Proof. intros A. exact slice_of_stack_oslice. Qed.
 Print Assumptions C04_slice_of_stack.
 
+(* concatenation is characterised by its pieces: ANY array of the stacked size whose slices at the
+   parts' extents are the parts is the stack — "concatenation in argument order" has exactly one
+   meaning *)
+Theorem C04_concat_unique : forall (A : Type) outer inner (parts : list (nat * list A)) d,
+  length d = outer * (sumn (map fst parts) * inner) ->
+  map (fun e => piece_at outer inner (sumn (map fst parts)) (fst e) (snd e) d)
+      (extents 0 (map fst parts)) = map snd parts ->
+  concat_at outer inner parts = d.
+Proof. intros A. exact concat_unique. Qed.
+Print Assumptions C04_concat_unique.
+
 (* ---- non-vacuity ---------------------------------------------------------------------------- *)
 
 (* a (2,5,2) array split on its middle axis into pieces of 2, 0 and 3 and stacked again; the
